@@ -21,6 +21,59 @@ def deep_doc(n):
             + '<xs:element name="x" type="xs:string"/>' + "".join(close) + "</xs:complexType></xs:schema>")
 
 
+def scale_cases(root):
+    """inputs that grow one dimension far beyond what the mutants reach; each runs in its own process under a time limit"""
+    out = []
+
+    def add(name, files, start):
+        d = os.path.join(root, "scale", name, "in")
+        os.makedirs(d)
+        for n, t in files.items():
+            open(os.path.join(d, n), "w").write(t)
+        out.append({"dir": os.path.dirname(d), "in": d, "start": start, "meta": {"features": "scale " + name}, "ref": None})
+
+    head = '<xs:schema xmlns:xs="http://www.w3.org/2001/XMLSchema" {x} targetNamespace="{u}" elementFormDefault="qualified">\n'
+    ct = '  <xs:complexType name="{n}"><xs:sequence><xs:element name="v" type="xs:string"/></xs:sequence></xs:complexType>\n'
+    for n in (12, 40, 150):
+        # n namespaces whose natural abbreviation is the same, each in its own imported file
+        files = {}
+        imports = ""
+        for i in range(n):
+            u = f"http://example.com/api/v{i}/types"
+            files[f"f{i}.xsd"] = head.format(x=f'xmlns:tns="{u}"', u=u) + ct.format(n=f"T{i}") + "</xs:schema>\n"
+            imports += f'  <xs:import namespace="{u}" schemaLocation="f{i}.xsd"/>\n'
+        files["main.xsd"] = head.format(x='xmlns:tns="http://example.com/api/main/types"', u="http://example.com/api/main/types") + imports + ct.format(n="Main") + "</xs:schema>\n"
+        add(f"colliding-namespaces-{n}", files, "main.xsd")
+        # the same n namespaces only bound as prefixes on one root element
+        x = " ".join(f'xmlns:p{i}="http://example.com/api/v{i}/types"' for i in range(n))
+        add(f"colliding-prefixes-{n}", {"main.xsd": head.format(x=x, u="http://example.com/api/main/types") + ct.format(n="Main") + "</xs:schema>\n"}, "main.xsd")
+    # a derivation chain declared in reverse order (every base is a forward reference)
+    for depth in (12, 60):
+        body = ""
+        for i in reversed(range(depth)):
+            if i == 0:
+                body += ct.format(n="T0")
+            else:
+                body += (f'  <xs:complexType name="T{i}"><xs:complexContent><xs:extension base="tns:T{i-1}"><xs:sequence><xs:element name="m{i}" type="xs:string"/></xs:sequence>'
+                         "</xs:extension></xs:complexContent></xs:complexType>\n")
+        add(f"forward-extension-chain-{depth}", {"main.xsd": head.format(x='xmlns:tns="urn:scale:chain"', u="urn:scale:chain") + body + "</xs:schema>\n"}, "main.xsd")
+    add("components-3000", {"main.xsd": head.format(x='xmlns:tns="urn:scale:many"', u="urn:scale:many") + "".join(ct.format(n=f"T{i}") for i in range(3000)) + "</xs:schema>\n"}, "main.xsd")
+    enum = "".join(f'<xs:enumeration value="v{i}"/>' for i in range(5000))
+    add("enumeration-5000", {"main.xsd": head.format(x='xmlns:tns="urn:scale:enum"', u="urn:scale:enum") + f'<xs:simpleType name="E"><xs:restriction base="xs:string">{enum}</xs:restriction></xs:simpleType></xs:schema>\n'}, "main.xsd")
+    add("name-20000-chars", {"main.xsd": head.format(x='xmlns:tns="urn:scale:name"', u="urn:scale:name") + ct.format(n="N" + "a" * 20000) + "</xs:schema>\n"}, "main.xsd")
+    return out
+
+
+def run_scale(cases, limit=90):
+    for cs in cases:
+        try:
+            p = subprocess.run([ZV, "gen", cs["in"], cs["start"], "-"], capture_output=True, text=True, timeout=limit)
+            cs["impl"] = p.stdout.strip().split("\n")[-1] if p.returncode == 0 and p.stdout.strip() else f"crash rc={p.returncode}"
+        except subprocess.TimeoutExpired:
+            cs["impl"] = f"timeout after {limit}s"
+    return cases
+
+
 def build_mutants(cases, root, per_case, rng):
     out = []
     k = 0
@@ -95,6 +148,12 @@ def run(tier, seed):
             bad.append(cs)
         if model_ok and not cs.get("same_bytes"):
             corr.append(cs)
+    # one dimension scaled up (namespaces with one abbreviation, forward-reference chains, thousands of components)
+    scale = run_scale(scale_cases(root))
+    for cs in scale:
+        outcomes["scale: " + klass(cs["impl"])] += 1
+        if cs["impl"].startswith(("panic", "crash", "timeout")) or not cs["impl"]:
+            bad.append(cs)
     # the recorded finding: very deep nesting, in a child process
     known_ok = None
     ddir = os.path.join(root, "deep", "in")
@@ -123,13 +182,15 @@ def run(tier, seed):
         "distinct_nontrivial": len({st.input_hash(cs) for cs in cases}),
         "rule": f"{per} mutants of each of {len(bases)} base inputs (repository schemas and generated valid schema sets/WSDLs): 1-4 edits each, DOM-level (delete/duplicate/move element, drop/alter attribute, "
                 "retarget QName, self- and mutually-referential definitions, cyclic bases, tag renaming, enumeration without value, nesting up to 150, name swaps, stripped xmlns, added imports) or text-level "
-                "(truncation, garbage, non-XML, entity bombs, BOM); run in-process under catch_unwind, re-run in a child process with a time limit when the batch dies; distinct = distinct file contents",
+                "(truncation, garbage, non-XML, entity bombs, BOM); plus a scale family (12/40/150 namespaces sharing one abbreviation as imports and as prefixes, forward-reference extension chains of depth 12 and 60, "
+                "3000 components, 5000 enumeration values, a 20000-character name), each in its own process under a 90 s limit; run in-process under catch_unwind, re-run in a child process with a time limit when the batch dies; distinct = distinct file contents",
         "samples": [{"mutations": cs["meta"]["features"], "base": cs["meta"]["base"], "impl": cs["impl"], "model": cs.get("model")} for cs in cases[:4]],
         "impl_outcome_classes": dict(outcomes),
         "mutation_operators": dict(ops),
         "panics_crashes_timeouts": len(bad),
         "disagreements_checked": len(cases) if model_ok else 0,
         "model_vs_impl_disagreements": len(corr),
+        "scale_family": {cs["meta"]["features"]: cs["impl"][:60] for cs in scale},
         "deep_nesting_probe": {"depth_60000": deep_outcome, "depth_300": shallow_outcome},
     })
     c.assumptions += ["stack size and wall-clock are the runtime's: the theorems bound recursion structurally (memberSites) and by construction (no panic site in the library); the differential run observes the real process",
